@@ -7,6 +7,7 @@ package gometrics
 //@   guarded mu: registeredGauges, registeredListeners, started
 //@   immutable: prefix, pollFrequency, stopper, registry
 //@   inv deps: this.registeredGauges != nil && this.registeredListeners != nil && this.stopper != nil
+//@   inv[C20] listeners_nonnil: forall k string :: has(this.registeredListeners, k) ==> this.registeredListeners[k] != nil
 
 //@ type metricSampleListener
 //@   immutable: id, metricType, distribution, timer, counter
@@ -43,18 +44,21 @@ package gometrics
 //@ define regID(id string) string = ite(strHasPrefix(id, "."), strTrimPrefix(id, "."), id)
 
 //@ func (*MetricRegistry).RegisterDistribution
-//@   maintains r
+//@   maintains[C20] r
+//@   refines[C20] core.MetricRegistry.RegisterDistribution
 //@   ensures[C20] reuse: old(has(r.registeredListeners, regID(ID))) ==> ref(result) == old(r.registeredListeners[regID(ID)])
 //@   ensures[C20] new_listener: !old(has(r.registeredListeners, regID(ID))) ==> dyntype(result, "*metric_registry/gometrics.metricSampleListener") && fresh(ref(result)) && as(result, "*metric_registry/gometrics.metricSampleListener").metricType == 0 && as(result, "*metric_registry/gometrics.metricSampleListener").id == r.prefix + regID(ID) && r.registeredListeners[regID(ID)] == ref(result)
 //@   ensures[C20] nonnil: old(forall k string :: has(r.registeredListeners, k) ==> r.registeredListeners[k] != nil) ==> result != nil
 //@   owns[C17]
 //@ func (*MetricRegistry).RegisterTiming
-//@   maintains r
+//@   maintains[C20] r
+//@   refines[C20] core.MetricRegistry.RegisterTiming
 //@   ensures[C20] reuse: old(has(r.registeredListeners, regID(ID))) ==> ref(result) == old(r.registeredListeners[regID(ID)])
 //@   ensures[C20] new_listener: !old(has(r.registeredListeners, regID(ID))) ==> dyntype(result, "*metric_registry/gometrics.metricSampleListener") && fresh(ref(result)) && as(result, "*metric_registry/gometrics.metricSampleListener").metricType == 1 && as(result, "*metric_registry/gometrics.metricSampleListener").id == r.prefix + regID(ID) && r.registeredListeners[regID(ID)] == ref(result)
 //@   owns[C17]
 //@ func (*MetricRegistry).RegisterCount
-//@   maintains r
+//@   maintains[C20] r
+//@   refines[C20] core.MetricRegistry.RegisterCount
 //@   ensures[C20] reuse: old(has(r.registeredListeners, regID(ID))) ==> ref(result) == old(r.registeredListeners[regID(ID)])
 //@   ensures[C20] new_listener: !old(has(r.registeredListeners, regID(ID))) ==> dyntype(result, "*metric_registry/gometrics.metricSampleListener") && fresh(ref(result)) && as(result, "*metric_registry/gometrics.metricSampleListener").metricType == 2 && as(result, "*metric_registry/gometrics.metricSampleListener").id == r.prefix + regID(ID) && r.registeredListeners[regID(ID)] == ref(result)
 //@   owns[C17]
